@@ -136,6 +136,10 @@ def choose_op(rng, run, nodes, st, opts):
             st["val"] += 1
             st["tag"] += 1
             st["ref"] += 1
+            if rng.random() < opts.get("p_turns", 0.0):
+                # ... or a chosen number of loop iterations after it: every alignment of the emission with the turn in which a
+                # woken coroutine (worker, delivery loop, blocked producer) runs is reachable
+                subs.append({"op": "turns", "n": rng.randint(1, 9)})
             subs.append({"op": "emit", "node": rng.choice(sources), "val": st["val"], "md": [{"tag": st["tag"], "ref": st["ref"]}]})
         return {"op": "multi", "ops": subs}
     if pend and r < 0.28:
@@ -203,8 +207,19 @@ def run_adaptive(nodes, rng, n_ops, opts=None, flavour="future"):
             obs.append(o)
         try:
             await do({"op": "settle"})      # construction-time activity (timed windows emit an empty batch at once)
+            script = list(opts.get("script", []))       # scripted prefix (directed scenarios), then random operations
             for _ in range(n_ops):
-                await do(choose_op(rng, run, nodes, st, opts))
+                if script:
+                    op = script.pop(0)
+                    for sub in subops(op):
+                        if sub["op"] == "emit":
+                            st["val"] = max(st["val"], sub["val"] if isinstance(sub["val"], int) else 0)
+                            for e in sub.get("md", []):
+                                st["tag"] = max(st["tag"], e["tag"])
+                                st["ref"] = max(st["ref"], e.get("ref") or 0)
+                    await do(op)
+                else:
+                    await do(choose_op(rng, run, nodes, st, opts))
             # drain
             big = 2 * max_interval(nodes) + 1
             for _ in range(80):
